@@ -120,6 +120,11 @@ func checkC20(t *testing.T, c *c20Case, rec *Recorder) []Diff {
 		}
 		return false
 	}
+	if att, del := handshakesDelivered(o.Wire); sackAvailable && att > del && !fired {
+		// the harness could not show the SYN-ACK to a SACK attempt: nothing to judge
+		rec.Case(scenarioKey(c), false, c, append(labels, "handshake-not-delivered(not asserted)")...)
+		return ds
+	}
 	switch c.Method {
 	case "", "syn":
 		if o.SackAccept != 0 {
